@@ -163,9 +163,22 @@ func shortCall(call *ast.CallExpr) string {
 }
 
 func returnsErr(b *ast.BlockStmt) bool {
-	if len(b.List) != 1 {
+	// leading calls to the verif hooks do not count
+	list := b.List
+	for len(list) > 0 {
+		es, ok := list[0].(*ast.ExprStmt)
+		if !ok {
+			break
+		}
+		call, ok := es.X.(*ast.CallExpr)
+		if !ok || !strings.HasPrefix(exprString(call.Fun), "verif") {
+			break
+		}
+		list = list[1:]
+	}
+	if len(list) != 1 {
 		return false
 	}
-	rs, ok := b.List[0].(*ast.ReturnStmt)
+	rs, ok := list[0].(*ast.ReturnStmt)
 	return ok && len(rs.Results) == 1 && exprString(rs.Results[0]) == "err"
 }
